@@ -13,6 +13,8 @@ Definition tape_tol : Q := Qmake 1 100000000000.   (* 1e-11 : relative residual 
 Inductive body :=
 | KCong (absv : bool) (As Bs : list (mat Q)) (nas nbs : list (list Q)) (impl : res (Q * list nat))
 | KPermute (ref fs : list (mat Q)) (w : list Q) (nas nbs : list (list Q)) (impl : res (list Q * list (mat Q) * list nat))
+| KPermuteList (ref : list (mat Q)) (nas : list (list Q)) (ts : list (list Q * list (mat Q) * list (list Q)))
+               (impl : res (list (list Q * list (mat Q) * list nat)))
 | KCorrIdx (meth : option cmethod) (ctol : Q) (f1 f2 : list (mat Q)) (n1 n2 : list (list Q)) (impl : res Q)
 | KLev (M U Vt : mat Q) (sv : list Q) (eps : Q) (impl : res (list Q))
 | KReg (which : nat) (ax : option nat) (yt yp : tensor Q) (exact : bool) (impl : res (tensor Q)).
@@ -32,38 +34,55 @@ Definition qdy (x : Q) : Q :=
   Qred (Qmake (Z.div (Qnum x * Zpos (2 ^ 80)%positive) (Zpos (Qden x))) (2 ^ 80)%positive).
 Definition mdy (M : mat Q) : mat Q := map (map qdy) M.
 
-(* exact value of the implementation's matching in the model; the same on the rounded matrix; the brute-force
-   optimum on the rounded matrix *)
-Definition cong_values (absv : bool) (As Bs : list (mat Q)) (nas nbs : list (list Q)) (p : list nat) : Q * Q * Q :=
-  let r := ncols (hd [] As) in
-  let C := cong_all Qops absv r (zip_modes As Bs nas nbs) in
+(* the returned matching p is a permutation and optimal among all r! matchings of the (rounded) matrix, by value *)
+Definition optimal_on (r : nat) (C : mat Q) (p : list nat) : bool :=
   let Cd := mdy C in
-  (score Qops r C p, score Qops r Cd p, score Qops r Cd (best_perm Qops r Cd)).
+  is_permb r p && qclose tol tol (score Qops r Cd p) (score Qops r Cd (best_perm Qops r Cd)).
 
+(* congruence = cong_matrix, then the oracle, then score (Model/Metrics.v): the matrix is computed ONCE here *)
 Definition agree_cong absv As Bs nas nbs (impl : res (Q * list nat)) : bool :=
-  match impl with
-  | Err => match congruence Qops absv As Bs nas nbs (fun _ => []) with Err => true | Ok _ => false end
-  | Ok (v, p) =>
-    match congruence Qops absv As Bs nas nbs (fun _ => p) with
-    | Err => false
-    | Ok _ =>
-      let '(vm, vd, vbest) := cong_values absv As Bs nas nbs p in
-      tapes_ok As nas && tapes_ok Bs nbs && is_permb (ncols (hd [] As)) p &&
-      qclose tol tol v vm &&          (* returned value = mean congruence of the returned matching *)
-      qclose tol tol vd vbest         (* the returned matching is optimal among all r! (ties by value) *)
-    end
+  match cong_matrix Qops absv As Bs nas nbs, impl with
+  | Err, Err => true
+  | Ok (r, C), Ok (v, p) =>
+      tapes_ok As nas && tapes_ok Bs nbs && optimal_on r C p &&
+      qclose tol tol v (score Qops r C p)     (* returned value = mean congruence of the returned matching *)
+  | _, _ => false
   end.
 
+Definition out_eqb (a b : list Q * list (mat Q) * list nat) : bool :=
+  let '(w1, f1, p1) := a in let '(w2, f2, p2) := b in
+  q_list_eqb w1 w2 && forallb2 mat_eqb f1 f2 && nat_list_eqb p1 p2.
+
 Definition agree_permute ref fs w nas nbs (impl : res (list Q * list (mat Q) * list nat)) : bool :=
+  match cong_matrix Qops true ref fs nas nbs, impl with
+  | Err, Err => true
+  | Ok (r, C), Ok (w', fs', p) =>
+      tapes_ok ref nas && tapes_ok fs nbs && optimal_on r C p &&
+      match cp_permute_factors Qops ref fs w nas nbs (fun _ => p) with
+      | Ok out => out_eqb out (w', fs', p)
+      | Err => false
+      end
+  | _, _ => false
+  end.
+
+(* list of tensors: linear_sum_assignment is a FUNCTION of the matrix; its recorded answers are replayed by
+   looking the matrix up (two tensors with the same congruence matrix must have received the same answer) *)
+Definition assign_tape (tape : list (mat Q * list nat)) (C : mat Q) : list nat :=
+  match find (fun e => mat_eqb (fst e) C) tape with Some e => snd e | None => [] end.
+Definition cmat_of (ref : list (mat Q)) (nas : list (list Q)) (t : list Q * list (mat Q) * list (list Q)) : nat * mat Q :=
+  match cong_matrix Qops true ref (snd (fst t)) nas (snd t) with Ok rc => rc | Err => (0%nat, []) end.
+Definition agree_permute_list ref nas (ts : list (list Q * list (mat Q) * list (list Q)))
+  (impl : res (list (list Q * list (mat Q) * list nat))) : bool :=
   match impl with
-  | Err => match cp_permute_factors Qops ref fs w nas nbs (fun _ => []) with Err => true | Ok _ => false end
-  | Ok (w', fs', p) =>
-    match cp_permute_factors Qops ref fs w nas nbs (fun _ => p) with
+  | Err => match cp_permute_factors_list Qops ref nas ts (fun _ => []) with Err => true | Ok _ => false end
+  | Ok outs =>
+    let ps := map snd outs in
+    let rcs := map (cmat_of ref nas) ts in
+    match cp_permute_factors_list Qops ref nas ts (assign_tape (combine (map snd rcs) ps)) with
     | Err => false
-    | Ok (wm, fsm, _) =>
-      let '(_, vd, vbest) := cong_values true ref fs nas nbs p in
-      tapes_ok ref nas && tapes_ok fs nbs && is_permb (ncols (hd [] ref)) p &&
-      q_list_eqb wm w' && forallb2 mat_eqb fsm fs' && qclose tol tol vd vbest
+    | Ok mouts =>
+      forallb2 out_eqb mouts outs && tapes_ok ref nas && forallb (fun t => tapes_ok (snd (fst t)) (snd t)) ts &&
+      forallb2 (fun rc p => optimal_on (fst rc) (snd rc) p) rcs ps
     end
   end.
 
@@ -134,6 +153,7 @@ Definition agree (c : case) : bool :=
   match snd c with
   | KCong absv As Bs nas nbs impl => agree_cong absv As Bs nas nbs impl
   | KPermute ref fs w nas nbs impl => agree_permute ref fs w nas nbs impl
+  | KPermuteList ref nas ts impl => agree_permute_list ref nas ts impl
   | KCorrIdx meth ctol f1 f2 n1 n2 impl => agree_corridx meth ctol f1 f2 n1 n2 impl
   | KLev M U Vt sv eps impl => agree_lev M U Vt sv eps impl
   | KReg which ax yt yp exact impl => agree_reg which ax yt yp exact impl
